@@ -20,6 +20,7 @@ func init() {
 		Rule: "a case is (spec string, argv, every subset of the <=5 declared options backed by a set environment variable): specs are (i) random bytes and random strings over the spec alphabet, " +
 			"(ii) concatenations of fragments biased to dangerous shapes (nested repetitions of optional groups, -- inside repetitions and choices, long | chains, deep bracket nesting up to 64), " +
 			"(iii) grammar-derived specs (depth<=3, spec-level --), (iv) ambiguous repetitions such as '(X | Y)... -a' on lines of 20-64 tokens that are rejected only after every split was tried (2% of the cases); argv = random mix of declared option spellings, positionals, --, -, junk (<=16 tokens). " +
+			"Family T (one case in fifty): command trees (sub-commands declaring -h/--help or nothing at all, version flag) on command lines salted with help / version tokens, --, command names and junk must end in a documented way. " +
 			"Refuting events: worker death, a panic other than the positioned spec error, per-case CPU budget (20 CPU-seconds on the thread that runs the library: clock_gettime on the thread CPU clock) exceeded, spec error position outside [0,len(spec)], Error() panicking, " +
 			"an outcome that is neither acceptance nor a returned usage error. non-trivial = spec of >=3 bytes; distinct by (spec, argv).",
 		Assumptions: []string{
